@@ -2,7 +2,7 @@
 
    Reading guide.  T/ser/de/wf = a value type with its BorshSerialize / BorshDeserialize and the set of
    representable values; [oracle_ok ser de wf] = round trip with exact consumption, non-empty encodings,
-   de [] fails, decoded values representable, encodings are bytes (proved for the four account types of
+   de [] fails, decoded values representable, encodings are bytes (proved for the five account types of
    the harness: C15_instances).  [prog_ok pid w d] = the program id is a key and the discriminant d has
    w bytes.  [exec_instr .. fixed ..] runs one simulated instruction (begin: flags + resize_delta 0,
    try_from_accounts, body calls, cleanup) with the write-back of the repaired code (fixed = true) or
@@ -125,13 +125,32 @@ Theorem C15_growth_refused :
   (forall wr, try_from_accounts T de pid w d (begin_instr wr (r_acct res)) = Ok (Some v0)).
 Proof. exact p_growth_refused. Qed.
 
-(* the oracle hypotheses hold for the borsh model of the four account types the harness compiles
-   (fixed struct, Vec<u8>, String, nested struct with Vec<struct> / Option / String) *)
+(* the oracle hypotheses hold for the borsh model of the five account types the harness compiles
+   (fixed struct, Vec<u8>, String, nested struct with Vec<struct> / Option / String, BTreeSet<u8>) *)
 Theorem C15_instances :
   oracle_ok (c_ser c_fx) (c_de c_fx) (c_wf c_fx) /\ oracle_ok (c_ser c_bv) (c_de c_bv) (c_wf c_bv) /\
   oracle_ok (c_ser c_st) (c_de c_st) (c_wf c_st) /\ oracle_ok (c_ser c_ns) (c_de c_ns) (c_wf c_ns) /\
-  prog_ok PID_A 8 DISC_FX /\ prog_ok PID_A 8 DISC_BV /\ prog_ok PID_B 1 DISC_ST /\ prog_ok PID_C 4 DISC_NS.
+  oracle_ok (c_ser c_sb) (c_de c_sb) (c_wf c_sb) /\
+  prog_ok PID_A 8 DISC_FX /\ prog_ok PID_A 8 DISC_BV /\ prog_ok PID_B 1 DISC_ST /\ prog_ok PID_C 4 DISC_NS /\
+  prog_ok PID_A 8 DISC_SB.
 Proof. exact instances_ok. Qed.
+
+(* non-canonical encodings: BTreeSet<u8> is read from its elements in any order and with duplicates, and
+   written ascending.  The image [len 4: 9 2 9 5] decodes to {2,5,9}; a read-only instruction (read, manual
+   serialize, reload, default cleanup) leaves it byte for byte; the next writable instruction rewrites it
+   as [len 3: 2 5 9]; every instruction decodes the same value *)
+Theorem C15_noncanonical_image :
+  let a := mkB PID_A true (DISC_SB ++ [4; 0; 0; 0; 9; 2; 9; 5]) 0 1000000 in
+  let l := [mkInstr false false [ORead; OSerialize; OReload];
+            mkInstr true false [];
+            mkInstr false false [ORead]] in
+  acct_ok a /\
+  map (fun r => (r_tfa r, r_end r, b_data (r_acct r)))
+      (exec_seq (list Z) (c_ser c_sb) (c_de c_sb) true PID_A 8 DISC_SB a l) =
+  [ (Ok (Some [2; 5; 9]), IDone (Some [2; 5; 9]), DISC_SB ++ [4; 0; 0; 0; 9; 2; 9; 5]);
+    (Ok (Some [2; 5; 9]), IDone (Some [2; 5; 9]), DISC_SB ++ [3; 0; 0; 0; 2; 5; 9]);
+    (Ok (Some [2; 5; 9]), IDone (Some [2; 5; 9]), DISC_SB ++ [3; 0; 0; 0; 2; 5; 9]) ].
+Proof. exact noncanonical_image. Qed.
 
 (* D6: with the write-back as shipped (the wrapper's Option<T> is serialised) persist is false: the
    example program's own instruction - set_inner(vec![1,2,3,4]) on MyBorshAccount's shape - leaves
